@@ -1,0 +1,29 @@
+//go:build verif
+
+package gov
+
+import (
+	"github.com/rigochain/rigo-go/ctrlers/gov/proposal"
+	ctrlertypes "github.com/rigochain/rigo-go/ctrlers/types"
+	"github.com/rigochain/rigo-go/ledger"
+)
+
+func (ctrler *GovCtrler) VerifParamsLedger() *ledger.FinalityLedger[*ctrlertypes.GovParams] {
+	return ctrler.paramsLedger.(*ledger.FinalityLedger[*ctrlertypes.GovParams])
+}
+
+func (ctrler *GovCtrler) VerifProposalLedger() *ledger.FinalityLedger[*proposal.GovProposal] {
+	return ctrler.proposalLedger.(*ledger.FinalityLedger[*proposal.GovProposal])
+}
+
+func (ctrler *GovCtrler) VerifFrozenLedger() *ledger.FinalityLedger[*proposal.GovProposal] {
+	return ctrler.frozenLedger.(*ledger.FinalityLedger[*proposal.GovProposal])
+}
+
+func (ctrler *GovCtrler) VerifActiveParams() *ctrlertypes.GovParams {
+	return &ctrler.GovParams
+}
+
+func (ctrler *GovCtrler) VerifNewGovParams() *ctrlertypes.GovParams {
+	return ctrler.newGovParams
+}
